@@ -110,23 +110,24 @@ fn run_one(api: &str, text: &str, plain: &Interpreter, host: &Interpreter) -> Ou
 // scratch files for imports, rendering of token sequences
 // ------------------------------------------------------------------------------------------
 
-const SCRATCH: &str = "/verif/work/c03_scratch";
+fn scratch() -> String { format!("{}/c03_scratch", crate::util::work_dir()) }
 
 fn make_scratch() {
-    let d = Path::new(SCRATCH);
+    let scratch = scratch();
+    let d = Path::new(&scratch);
     fs::create_dir_all(d.join("dir.sl")).unwrap();
     fs::write(d.join("valid.sl"), "one := 1;\ninc := (v: int) -> int { return v + one }\ncell := mut 2.5\n").unwrap();
     fs::write(d.join("invalid.sl"), "one := := 1 }").unwrap();
     fs::write(d.join("illtyped.sl"), "one := 1 + \"s\"").unwrap();
     fs::write(d.join("binary.sl"), [0xffu8, 0xfe, 0x00, 0xc3, 0x28]).unwrap();
-    fs::write(d.join("self.sl"), format!("import \"{SCRATCH}/self.sl\"")).unwrap();
+    fs::write(d.join("self.sl"), format!("import \"{scratch}/self.sl\"")).unwrap();
     let _ = fs::remove_file(d.join("missing.sl"));
 }
 
 fn subst(tok: &str) -> String {
     if let Some(rest) = tok.strip_prefix("\"@") {
         if let Some(kind) = rest.strip_suffix('"') {
-            return format!("\"{SCRATCH}/{kind}.sl\"");
+            return format!("\"{}/{kind}.sl\"", scratch());
         }
     }
     tok.to_string()
@@ -351,7 +352,7 @@ fn classify_abort(status: &std::process::ExitStatus, stderr: &str) -> (String, S
 }
 
 fn run_cases(name: &str, ctxdir: &str, cases: &[Value], cx: &Contexts) -> RunResult {
-    let dir = format!("/verif/work/c03_run_{name}");
+    let dir = format!("{}/c03_run_{name}", crate::util::work_dir());
     let _ = fs::remove_dir_all(&dir);
     fs::create_dir_all(&dir).unwrap();
     make_scratch();
